@@ -1725,6 +1725,7 @@ error:
 		free(opttitle);
 	if (comment)
 		free(comment);
+	cfg_free_value(&funcopt);	/* arguments collected for a call that never happened */
 
 	return STATE_ERROR;
 }
